@@ -60,18 +60,21 @@ OP_CLASS = {
     "flock": "lock",
 }
 
+# C16's quantifier names five failures for EVERY call boundary (ENOSPC, EACCES, EIO, EINTR, EROFS); they are admissible
+# everywhere, whatever a particular file system would realistically return.  Class-specific extras follow.
+CORE_ERRNOS = ["ENOSPC", "EACCES", "EIO", "EINTR", "EROFS"]
 CLASS_ERRNOS = {
-    "lookup": ["EACCES", "EIO"],
-    "open_read": ["EACCES", "EIO", "EMFILE", "ENOENT", "EINTR"],
-    "read": ["EIO", "EINTR"],
-    "mkdir": ["EACCES", "ENOSPC", "EROFS"],
-    "create": ["EACCES", "ENOSPC", "EROFS", "EMFILE", "EINTR"],
-    "chmod": ["EPERM", "EROFS", "EIO"],
-    "write": ["ENOSPC", "EIO", "EINTR", "EDQUOT"],
-    "sync": ["EIO", "ENOSPC", "EINTR"],
-    "close": ["EIO", "EINTR"],
-    "rename": ["EACCES", "EROFS", "ENOSPC", "EIO", "EBUSY"],
-    "unlink": ["EACCES", "EROFS", "EIO", "EBUSY"],
+    "lookup": CORE_ERRNOS + [],
+    "open_read": CORE_ERRNOS + ["EMFILE", "ENOENT"],
+    "read": CORE_ERRNOS + [],
+    "mkdir": CORE_ERRNOS + [],
+    "create": CORE_ERRNOS + ["EMFILE"],
+    "chmod": CORE_ERRNOS + ["EPERM"],
+    "write": CORE_ERRNOS + ["EDQUOT"],
+    "sync": CORE_ERRNOS + [],
+    "close": CORE_ERRNOS + [],
+    "rename": CORE_ERRNOS + ["EBUSY"],
+    "unlink": CORE_ERRNOS + ["EBUSY"],
     "fdmeta": [],
     "lock": [],
 }
